@@ -1,9 +1,12 @@
 (* C05 — DoWhile unrolling is wired correctly for any number of iterations.  Property theorems only.
    [unroll d out k] is the workflow after k calls of instantiate_dowhile_next_iteration (each with
-   next = currentIteration + 1, as the controller does); [wf_doc] describes the documents considered. *)
+   next = currentIteration + 1, as the controller does); [wf_doc] describes the documents considered: the
+   (stage, name) pairs of the looped components are pairwise distinct (two looped components of different stages
+   may have the same name), names hold no '#', the condition is produced in the loop, input bindings are bound
+   outside the loop, internal references name looped components. *)
 From Coq Require Import String List NArith Permutation.
 Import ListNotations.
-Require Import V.Lib.PyStr V.Loop.Model V.Loop.Proofs.
+Require Import V.Lib.PyStr V.Lib.JTree V.Loop.Model V.Loop.Proofs V.Loop.Edges V.Loop.Subst.
 Open Scope N_scope.
 
 (* After k further iterations the workflow contains exactly the instances 0..k of every looped component
@@ -42,7 +45,7 @@ Print Assumptions C05_wiring.
 (* With the integer key (the repaired code): the newest instance of every looped component is iteration k
    (placeholder metadata and map_placeholder_id_to_iteration); sorting the represented instances, in whatever
    order they are listed, gives 0#c .. k#c; the DoWhile state is iteration k and its condition the one produced
-   by iteration k. *)
+   by iteration k of the component with the stage AND name of the document's condition ([cond_id]). *)
 Theorem C05_latest : forall (d : dowhile) (out : list ocomp) (k : nat) (c : comp), wf_doc d -> In c (d_comps d) ->
   let w := unroll d out k in
   let p := comp_id (d_stage d) c in
@@ -50,7 +53,7 @@ Theorem C05_latest : forall (d : dowhile) (out : list ocomp) (k : nat) (c : comp
   map_latest KeyInt w p = Some (inst_node (instance_of d (N.of_nat k) c)) /\
   (forall l, Permutation l (represents (w_loop w) p) ->
              isort KeyInt l = map (fun i => instance_of d i c) (iota k)) /\
-  (exists cc, In cc (d_comps d) /\ c_name cc = l_prod (d_cond d) /\ cur_iter w = N.of_nat k /\
+  (exists cc, In cc (d_comps d) /\ comp_id (d_stage d) cc = cond_id d /\ cur_iter w = N.of_nat k /\
      cur_cond w = pr_ref (mk_aref (c_stage cc + d_stage d) (iname (N.of_nat k) (c_name cc)) (l_file (d_cond d)) "output")).
 Proof.
   intros d out k c WF Hc w p. split; [exact (latest_upto d out WF c k Hc)|].
@@ -68,6 +71,69 @@ Theorem C05_resolve : forall (d : dowhile) (out : list ocomp) (k : nat) (c : com
 Proof. intros d out k c a WF Hc Hp. exact (resolve_outside d out WF c k a Hc Hp). Qed.
 Print Assumptions C05_resolve.
 
+(* The edges of the workflow graph after k further iterations (they accumulate: every iteration adds the edges of a
+   freshly built complete graph) are EXACTLY those implied by the references: for a node n holding reference a
+   (an outside consumer with its own references, or instance i <= k of a looped component with the references
+   [wire d i] of C05_wiring)
+   - if a names a component that is not a looped blueprint: the one edge from that component (when it is a node);
+   - if a names a looped blueprint c (placeholder): an edge from every instance 0..k of c, and from the instance
+     of the condition's producer of every iteration j with born(n) <= j <= k (n itself excepted).
+   Nothing else is an edge. *)
+Theorem C05_edges : forall (d : dowhile) (out : list ocomp) (k : nat) (p n : string), wf_doc d ->
+  (In (p, n) (w_edges (unroll d out k)) <-> edge_spec d out k p n).
+Proof. intros d out k p n WF. exact (edges_exact d out WF k p n). Qed.
+Print Assumptions C05_edges.
+
+(* The live graph is the union of the complete graphs built so far (no well-formedness needed). *)
+Theorem C05_edges_accumulate : forall (d : dowhile) (out : list ocomp) (k : nat) (e : string * string),
+  In e (w_edges (unroll d out k)) <-> exists j, (j <= k)%nat /\ In e (graph_edges (unroll d out j)).
+Proof. exact edges_accum. Qed.
+Print Assumptions C05_edges_accumulate.
+
+(* Locality: when no loop binding aggregates over iterations, every reference of instance i names a component that
+   is not a placeholder — by C05_edges it yields at most the single edge from that component — and that component
+   is an instance of the same iteration, an instance of iteration i-1 (i > 0), or the original value of an input
+   binding (outside the loop).  So a reference of instance i that names an instance i'#n' has i' = i or i' = i-1:
+   no edge from a later iteration, none from an iteration older than i-1. *)
+Theorem C05_edges_local : forall (d : dowhile) (i : N) (c : comp) (r : ref), wf_doc d -> no_agg_loopb d ->
+  In c (d_comps d) -> In r (c_refs c) ->
+  let a := wire d i (c_stage c) r in
+  in_loop_ids d (a_stage a, a_prod a) = false /\
+  ((exists n', a_prod a = iname i n') \/
+   (0 < i /\ exists n', a_prod a = iname (i - 1) n') \/
+   (exists b v, lookup b (d_binds d) = Some v /\ a_stage a = a_stage v /\ a_prod a = a_prod v /\
+                in_loop_ids d (a_stage v, a_prod v) = false)) /\
+  ((forall b v, lookup b (d_binds d) = Some v -> occurs "#" (a_prod v) = false) ->
+   forall i' n', a_prod a = iname i' n' -> i' = i \/ (0 < i /\ i' = i - 1)).
+Proof.
+  intros d i c r WF NA Hc Hr a. destruct (wire_local d WF i c r NA Hc Hr) as [H1 H2].
+  split; [exact H1|]. split; [exact H2|]. intros NH i' n' E. exact (wire_iterations d WF i c r i' n' NA NH Hc Hr E).
+Qed.
+Print Assumptions C05_edges_local.
+
+(* Command lines (flowir.rewrite_all_references = one re.sub(r'\b<text>\b', <new>, value, 1) per discovered
+   reference text, in order).  (a) reference texts that do not occur word-bounded in a value leave it unchanged;
+   (b) a value that is one reference text (an entry of the references list) becomes exactly its new form;
+   (c) bounded sweep, the bound being the generator's component names, stages {0,1,3} and iterations
+   {0,1,2,9,10,11,12,25}: the command line "n1:ref n2:ref" is rewritten so that each occurrence names its own
+   instance IF AND ONLY IF the later text does not occur word-bounded inside the earlier one ([overlap], the class
+   of the open finding F5c; C05_sequential_substitution_refuted exhibits the failure). *)
+Theorem C05_substitution_untouched : forall (subs : list (string * string)) (s : string),
+  (forall mr, In mr subs -> wb_occurs (fst mr) None s = false) -> rewrite_seq subs s = s.
+Proof. exact rewrite_seq_no_wb. Qed.
+Print Assumptions C05_substitution_untouched.
+
+Theorem C05_substitution_single : forall (pat rep : string) a rest,
+  pat = String a rest -> wordc a = true -> ow (last_of pat None) = true -> sub_first pat rep None pat = rep.
+Proof. exact sub_first_whole. Qed.
+Print Assumptions C05_substitution_single.
+
+Theorem C05_substitution_sweep : forall (n1 n2 : string) (S i : N),
+  In (n1, n2) name_pairs -> In S stages -> In i iters ->
+  (rewritten S i n1 n2 = intended S i n1 n2 <-> overlap n1 n2 = false).
+Proof. exact sweep_spec. Qed.
+Print Assumptions C05_substitution_sweep.
+
 (* non-vacuity: the three-component loop of tests/test_dowhile.py is well formed; after 12 further iterations
    its instance 12 of "add" reads iteration 11 of "fake_add", outside references see iteration 12, the loop
    reference lists 0..12 in numeric order *)
@@ -77,9 +143,33 @@ Example C05_nonvacuous :
   option_map inst_node (latest KeyInt (unroll ex_doc ex_out 12) (1, "add"%string)) = Some "stage1.12#add"%string /\
   cur_cond (unroll ex_doc ex_out 12) = "stage1.12#stop/f:output"%string /\
   resolve KeyInt (unroll ex_doc ex_out 2) (mk_aref 1 "fake_add" "" "loopref") =
-    "stages/stage1/0#fake_add stages/stage1/1#fake_add stages/stage1/2#fake_add"%string.
+    "stages/stage1/0#fake_add stages/stage1/1#fake_add stages/stage1/2#fake_add"%string /\
+  (* hypotheses of C05_edges_local *)
+  no_agg_loopb ex_doc /\ (forall b v, lookup b (d_binds ex_doc) = Some v -> occurs "#" (a_prod v) = false) /\
+  (* edges: loop-carried 11#fake_add -> 12#add, placeholder edges into the outside consumer, no forward edge *)
+  existsb (edge_eqb ("stage1.11#fake_add", "stage1.12#add")%string) (w_edges (unroll ex_doc ex_out 12)) = true /\
+  existsb (edge_eqb ("stage1.3#add", "stage2.report")%string) (w_edges (unroll ex_doc ex_out 12)) = true /\
+  existsb (edge_eqb ("stage1.7#stop", "stage2.report")%string) (w_edges (unroll ex_doc ex_out 12)) = true /\
+  existsb (edge_eqb ("stage1.12#fake_add", "stage1.11#add")%string) (w_edges (unroll ex_doc ex_out 12)) = false /\
+  (* two looped components with the same name in different stages: a well-formed document; the condition is the
+     one of stage 1 *)
+  wf_doc ex_doc2 /\
+  cur_cond (unroll ex_doc2 ex_out2 11) = "stage1.11#x/f:output"%string /\
+  map_latest KeyInt (unroll ex_doc2 ex_out2 11) (0, "x"%string) = Some "stage0.11#x"%string /\
+  map_latest KeyInt (unroll ex_doc2 ex_out2 11) (1, "x"%string) = Some "stage1.11#x"%string /\
+  (* command lines: 132 name pairs are swept, 'b' then 'a-b' is rewritten as intended *)
+  length name_pairs = 132%nat /\ overlap "b" "a-b" = false /\
+  rewritten 1 10 "b" "a-b" = "stage1.10#b:ref stage1.10#a-b:ref"%string.
 Proof.
   split; [exact ex_doc_wf|]. split.
   - vm_compute. do 36 right. left. reflexivity.
-  - vm_compute. repeat split.
+  - split; [vm_compute; reflexivity|]. split; [vm_compute; reflexivity|]. split; [vm_compute; reflexivity|].
+    split.
+    { intros b l H. cbn in H. destruct (String.eqb b "number"); [|discriminate]. inversion H. reflexivity. }
+    split.
+    { intros b v H. cbn in H. destruct (String.eqb b "number"); [|discriminate]. inversion H. reflexivity. }
+    split; [vm_compute; reflexivity|]. split; [vm_compute; reflexivity|]. split; [vm_compute; reflexivity|].
+    split; [vm_compute; reflexivity|]. split; [exact ex_doc2_wf|].
+    split; [vm_compute; reflexivity|]. split; [vm_compute; reflexivity|]. split; [vm_compute; reflexivity|].
+    vm_compute. repeat split.
 Qed.
